@@ -1,4 +1,4 @@
-import BB.Proofs.PersistCalm
+import BB.Proofs.PersistRetry
 import BB.Proofs.PersistLayout
 /-!
 # C03 - Acknowledged uploads survive graceful shutdown and committed epochs
@@ -148,6 +148,22 @@ theorem C03_commit_covers {c : Cfg} (hss : 0 < c.ss) {w0 wa wb w : World} (hr : 
   intro f hf o ho e i b hfe hb hg
   exact sealed_covers (inv_reach hss hrw) hsl hf ho hfe hb hg
 
+/-- **The final data sync is retried until it succeeds.** If the final `dataSyncer()` call of a
+shutdown fails, `ProcessBlockPut` stays in its final iteration (the list stays closed for writing),
+calls neither `NotifySyncCompleted` nor `GetPersistentState`, and can only call `dataSyncer()`
+again: `G1.finished` - and with it the state file of `C03_shutdown_covers_acks` - is reached only
+through a final data sync that returned nil. -/
+theorem C03_final_sync_retried {c : Cfg} (hss : 0 < c.ss) {w w' : World} (hr : Reach c w) (hg : w.g1 = .syncing true)
+    (hf : w.syncFail = some w') :
+    w'.g1 = .started true ∧ w'.pbl.closed = true ∧ w'.pbl = w.pbl ∧ (∀ sd, w'.g1Completed sd = none) ∧
+    w'.swBegin 1 = none ∧ ∃ w'', w'.syncBegin = some w'' ∧ w''.g1 = .syncing true := by
+  obtain ⟨f, a1, a2, a3, _, _, a6, _, _, a9, a10⟩ := syncFail_retries hf
+  rw [hg] at a1
+  cases a1
+  have hr' : Reach c w' := Reach.step hr (Step.syncFail hf)
+  have hc := (shutInv_reach hss hr').closed (by rw [a2]; exact Or.inl rfl)
+  exact ⟨a2, hc, a3, a6, a9, a10⟩
+
 /-! ## The hypotheses are satisfiable: a concrete history
 
 4-byte sectors, 8-byte blocks, 3 blocks.  One upload (5 bytes, key 7, content token 100) with its
@@ -267,6 +283,9 @@ layout admits the one restored block. -/
 example : BB.BlockMap.CfgOK ⟨.immutable ⟨2⟩, 8, 1, 1⟩ ∧
     (v15.crashRestart [] [true] 0 false).pbl.blocks.length ≤ BB.BlockMap.capacity ⟨.immutable ⟨2⟩, 8, 1, 1⟩ :=
   ⟨⟨by decide, 1, by decide⟩, by decide⟩
+
+/-- `C03_final_sync_retried`: `v5` is inside the final data sync, which may fail. -/
+example : v5.g1 = .syncing true ∧ ∃ w', v5.syncFail = some w' := ⟨by rfl, _, rfl⟩
 
 end Example
 
